@@ -87,6 +87,10 @@ def finish(result, tier, seed, t0, checker_cmd):
     for k in known.get("findings", []):
         if k["property"] == result.prop:
             known_keys[k["key"]] = k
+        else:
+            # the same finding seen as a necessary condition of this property (`<P>.D:<rule>|fn|site`): it is the listed
+            # defect of the other property, identified by exactly the same rule, function and site
+            known_keys["%s.D:%s" % (result.prop, k["key"])] = k
     os.makedirs(VIOL_DIR, exist_ok=True)
     new, listed = [], []
     for f in result.findings:
